@@ -29,12 +29,20 @@ type Case struct {
 	DAG   dagen.DAG   `json:"dag"`
 	Sel   *dagen.Sel  `json:"sel"`
 	Split dagen.Split `json:"split"`
+	// PauseAt > 0: the requestor's block hook pauses the request at its n-th block and the request is resumed
+	// once everything is quiet; what is delivered, reported and stored must be what the uninterrupted
+	// reference traversal gives
+	PauseAt int `json:"pause_at,omitempty"`
 }
 
 func gen(t *rapid.T) Case {
 	d := dagen.GenDAG(t, dagen.GenOpts{MaxBlocks: run.N(12, 30), MaxDepth: 2})
 	sel := dagen.GenTraversalSel(t)
-	return Case{DAG: d, Sel: sel, Split: dagen.GenSplit(t, len(d.Blocks))}
+	c := Case{DAG: d, Sel: sel, Split: dagen.GenSplit(t, len(d.Blocks))}
+	if rapid.IntRange(0, 3).Draw(t, "haspause") == 0 {
+		c.PauseAt = rapid.IntRange(1, 6).Draw(t, "pauseat")
+	}
+	return c
 }
 
 var (
@@ -48,11 +56,12 @@ type outcome struct {
 	rc, ec bool
 	store  map[cid.Cid][]byte
 	hung   bool
+	paused bool
 	panicS string
 	wire   int
 }
 
-func exchange(b *dagen.Built, sel *dagen.Sel, reqStore, respStore map[cid.Cid][]byte) outcome {
+func exchange(b *dagen.Built, sel *dagen.Sel, reqStore, respStore map[cid.Cid][]byte, pauseAt int) outcome {
 	var o outcome
 	ro := sim.Run(outerT, func(w *sim.World) {
 		rq := w.AddInstance(reqID, sim.NewStore(reqStore, true))
@@ -61,8 +70,24 @@ func exchange(b *dagen.Built, sel *dagen.Sel, reqStore, respStore map[cid.Cid][]
 		rs.GS.RegisterIncomingRequestHook(func(p peer.ID, r graphsync.RequestData, ha graphsync.IncomingRequestHookActions) {
 			ha.ValidateRequest()
 		})
+		nblk := 0
+		var paused []graphsync.RequestID
+		if pauseAt > 0 {
+			rq.GS.RegisterIncomingBlockHook(func(_ peer.ID, rd graphsync.ResponseData, _ graphsync.BlockData, ha graphsync.IncomingBlockHookActions) {
+				nblk++
+				if nblk == pauseAt {
+					ha.PauseRequest()
+					paused = append(paused, rd.RequestID())
+				}
+			})
+		}
 		res := w.Request(rq, respID, cidlink.Link{Cid: b.Root}, sel.Node())
 		w.Quiesce()
+		for _, id := range paused {
+			o.paused = true
+			_ = rq.GS.Unpause(w.Ctx, id)
+			w.Quiesce()
+		}
 		o.visits, o.errs, o.rc, o.ec = res.Snapshot()
 		o.store = rq.Store.Snapshot()
 		o.wire = len(w.Net.Sent)
@@ -108,13 +133,16 @@ func judge(c Case) *pbt.Verdict {
 		return v
 	}
 	// known-finding classes, computed from the generated case alone
-	if k := knownClass(b.Root, sel, ref, respStore); k != "" && run.Known(k) {
+	if k := knownClass(b.Root, sel, ref, respStore, c.PauseAt > 0); k != "" && run.Known(k) {
 		v.Excluded = k
 		return v
 	}
 
-	o := exchange(b, c.Sel, reqStore, respStore)
+	o := exchange(b, c.Sel, reqStore, respStore, c.PauseAt)
 	describe(v, c, b, ref, reqStore, respStore)
+	if o.paused {
+		v.Label("paused-and-resumed")
+	}
 	if o.panicS != "" {
 		return v.Failf("panic: %s", o.panicS)
 	}
@@ -203,14 +231,29 @@ func firstDiff(a, b []dagen.Visit) string {
 }
 
 // knownClass returns the key of a known-finding class the case belongs to ("" if none).
-func knownClass(root cid.Cid, sel ipld.Node, ref *dagen.Ref, respStore map[cid.Cid][]byte) string {
+func knownClass(root cid.Cid, sel ipld.Node, ref *dagen.Ref, respStore map[cid.Cid][]byte, anyResumePoint bool) string {
 	// K2: the requestor asks the responder to skip as many leading blocks as it
 	// loaded locally (K), but the responder counts link traversals of its own
 	// walk. The defect manifests exactly when a block the requestor needs from
 	// the responder is first traversed by the responder at an index <= K: it is
-	// withheld, and later occurrences are deduplicated.
-	if ref.LocalPrefix < len(ref.Loads) && ref.LocalPrefix > 0 {
-		rr := dagen.RefStore(root, respStore, sel, 0)
+	// withheld, and later occurrences are deduplicated. A request that is paused and
+	// resumed asks again with K = the loads it has done so far (any K up to the end).
+	if ref.LocalPrefix >= len(ref.Loads) {
+		return ""
+	}
+	rr := dagen.RefStore(root, respStore, sel, 0)
+	if anyResumePoint {
+		// the count may be taken at any point of the requestor's walk: the two sides' units agree only if
+		// the responder's own walk visits the same links in the same order
+		same := len(rr.Loads) == len(ref.Loads)
+		for i := 0; same && i < len(rr.Loads); i++ {
+			same = rr.Loads[i].Cid.Equals(ref.Loads[i].Cid)
+		}
+		if !same {
+			return "C02-K2-skipcount-units"
+		}
+	}
+	if ref.LocalPrefix > 0 {
 		seen := map[cid.Cid]bool{}
 		for i, l := range rr.Loads {
 			if i+1 > ref.LocalPrefix {
